@@ -408,6 +408,8 @@ class Program:
         self.impls = []
         self.consts = {}
         self.crates = {}
+        self._pending = []
+        self.inlined = {}       # function -> helpers of unknown origin inlined into it (lrs/inline.py)
 
     def load_file(self, fn):
         with open(fn) as f:
@@ -415,9 +417,7 @@ class Program:
                 d = json.loads(line)
                 k = d['k']
                 if k == 'body':
-                    b = Body(d)
-                    self.bodies[b.raw_path] = b
-                    self.by_short.setdefault(b.path, []).append(b)
+                    self._pending.append(d)
                 elif k == 'fn':
                     self.fns[d['path']] = d
                 elif k == 'adt':
@@ -433,6 +433,16 @@ class Program:
         files = sorted(glob.glob(os.path.join(dirname, '*.jsonl')))
         for f in files:
             self.load_file(f)
+        recs = self._pending
+        self._pending = []
+        if not os.environ.get('LRS_NO_INLINE'):
+            from . import inline
+            recs, log = inline.inline_unknown(recs, strip_turbofish)
+            self.inlined.update(log)
+        for d in recs:
+            b = Body(d)
+            self.bodies[b.raw_path] = b
+            self.by_short.setdefault(b.path, []).append(b)
         return len(files)
 
     def body(self, short):
